@@ -86,6 +86,24 @@ def cycleA (f : V.Flat) (r : Rd) : Rd :=
   let x := fireAll f.procs r1
   settleA f.assigns (applyNbaA x.1 x.2)
 
+/-! ### what "settled" and "acyclic" mean for a list of continuous assigns -/
+
+/-- the net an assign drives -/
+def tgt (a : LHS × Expr) : String := a.1.name
+
+/-- the target is a whole declared net: `n` or `n[w-1:0]` with `w` the declared width (depends on declarations only) -/
+def LhsOk (r : Rd) (l : LHS) : Prop := resolve r l = .whole l.name ∧ lhsWidth r l = widthOf r l.name
+
+/-- every assign's target holds the value of its right-hand side under the CURRENT valuation -/
+def Settled (as : List (LHS × Expr)) (r : Rd) : Prop :=
+  ∀ a, a ∈ as → r.val (tgt a) = evalAssign r (widthOf r (tgt a)) a.2
+
+/-- `as` is listed sources-first: nobody at or after an assign drives what it reads (no combinational loop, no
+    self-loop), and no two assigns drive the same net (single driver) -/
+def Acyc : List (LHS × Expr) → Prop
+  | [] => True
+  | a :: rest => (∀ b, b ∈ a :: rest → ∀ n, n ∈ reads a.2 → n ≠ tgt b) ∧ (∀ b, b ∈ rest → tgt a ≠ tgt b) ∧ Acyc rest
+
 /-- a test bench drives a top-level input -/
 def poke (r : Rd) (n : String) (v : Nat) : Rd := setWhole r n ⟨widthOf r n, v, true⟩
 
